@@ -404,9 +404,11 @@ func c11Stream(r *hx.Rand, tier string, n int, w *bufio.Writer) map[string]int {
 	srcBeds := []*c11SrcBed{c11NewSrcBed("provider", true), c11NewSrcBed("legacy", true), c11NewSrcBed("provider", false), c11NewSrcBed("legacy", false)}
 
 	c11ParPreamble(r, tier, w, stats, bed) // the situation of F-C11e (fixed), once per run whatever the seed draws
+	lenEnv := &c11LenEnv{enc: enc, authz: authz, web: web}
+	c11LenPreamble(r, tier, w, stats, lenEnv) // every length boundary x both error functions, whatever the seed draws
 
 	for caseNo := 0; caseNo < n; caseNo++ {
-		kind := hx.Pick(r, "url", "url", "url", "form", "form", "code", "code", "token", "error", "error", "tryerror", "flow", "src", "src", "src", "seq", "par")
+		kind := hx.Pick(r, "url", "url", "url", "form", "form", "code", "code", "token", "error", "error", "tryerror", "flow", "src", "src", "src", "seq", "par", "len")
 		mode := modes[r.Intn(len(modes))]
 		rtype := rtypes[r.Intn(len(rtypes))]
 		u := c11URIs[r.Intn(len(c11URIs))]
@@ -429,6 +431,7 @@ func c11Stream(r *hx.Rand, tier string, n int, w *bufio.Writer) map[string]int {
 		sub := ""
 		var produced map[string][]string
 		var reqState []string // handler kinds: state and session_state of the authorization request
+		var srcErr []string   // error kinds: error code and description of the error value handed to the function
 		var obs c11Obs
 		var srcFields func(l *hx.Line)
 		req := httptest.NewRequest(http.MethodGet, "/authorize/callback?id=x", nil)
@@ -438,6 +441,9 @@ func c11Stream(r *hx.Rand, tier string, n int, w *bufio.Writer) map[string]int {
 			continue
 		case "par":
 			c11ParRun(r, tier, caseNo, w, stats, bed)
+			continue
+		case "len":
+			c11LenCase(r, tier, int64(caseNo), w, stats, lenEnv, c11LenBound(r, tier), "", nil)
 			continue
 		case "src":
 			sr, ok := c11SrcCase(r, srcBeds, tier, stats)
@@ -548,6 +554,12 @@ func c11Stream(r *hx.Rand, tier string, n int, w *bufio.Writer) map[string]int {
 			if r.Chance(10) {
 				perr = fmt.Errorf("plain error %s", val()) // not an oidc.Error: becomes server_error with this text
 			}
+			// what has to arrive: code and description of the error value handed in (an *oidc.Error as it is, anything else as
+			// server_error with the error's text), not what the function under test hands to the encoder
+			srcErr = []string{string(e.ErrorType), e.Description}
+			if perr != error(e) {
+				srcErr = []string{string(oidc.ServerError), perr.Error()}
+			}
 			enc.last = nil
 			if kind == "error" {
 				obs = c11Observe(func(w http.ResponseWriter) { op.AuthRequestError(w, req, ar, perr, authz) })
@@ -650,6 +662,13 @@ func c11Stream(r *hx.Rand, tier string, n int, w *bufio.Writer) map[string]int {
 			}
 			if reqState[1] != "" {
 				expected["session_state"] = []string{reqState[1]}
+			}
+		}
+		if srcErr != nil && len(produced) > 0 {
+			expected["error"] = []string{srcErr[0]}
+			delete(expected, "error_description")
+			if srcErr[1] != "" {
+				expected["error_description"] = []string{srcErr[1]}
 			}
 		}
 		l.L("p", c11Produced(expected))
